@@ -265,6 +265,51 @@ mod h {
         kani::cover!(equal && ne, "COV:C20.eval.ne_on_equal_reached");
     }
 
+    /// FloatCmp, ordering codes: the machine's ordered fcmp (false when an operand is NaN).
+    macro_rules! floatcmp_order {
+        ($name:ident, $V:ident, $t:ty) => {
+            #[kani::proof]
+            fn $name() {
+                let (l, r): ($t, $t) = (kani::any(), kani::any());
+                let k: u8 = kani::any();
+                kani::assume(k < 4);
+                let (cmp, want) = match k {
+                    0 => (FloatCmp::Lt, l < r),
+                    1 => (FloatCmp::Le, l <= r),
+                    2 => (FloatCmp::Gt, l > r),
+                    _ => (FloatCmp::Ge, l >= r),
+                };
+                let (a, b) = (IrValue::$V(l), IrValue::$V(r));
+                let mut m = vars2(a.clone(), b.clone());
+                arm_floatcmp(&mut m, &var(2), &cmp, &place(0), &place(1));
+                assert!(same(m.get(&var(2)).unwrap(), &IrValue::Bool(want)), "OBL:C20.eval.floatcmp.ordering_equals_machine_fcmp");
+                assert!(m.len() == 3, "OBL:C20.eval.floatcmp.frame");
+                kani::cover!(want, "COV:C20.eval.floatcmp_true_reached");
+                kani::cover!(l.is_nan() && !want, "COV:C20.eval.floatcmp_nan_reached");
+            }
+        };
+    }
+    floatcmp_order!(c20_u1_floatcmp_order_f32, F32, f32);
+    floatcmp_order!(c20_u1_floatcmp_order_f64, F64, f64);
+
+    /// FloatCmp Eq / Ne: the evaluator either stops loudly (the pinned IrValue::eq has no float arm)
+    /// or completes with the machine's fcmp eq / ne: IEEE equality (0.0 == -0.0, NaN != NaN).
+    macro_rules! floatcmp_eq {
+        ($name:ident, $V:ident, $t:ty) => {
+            #[kani::proof]
+            fn $name() {
+                let (l, r): ($t, $t) = (kani::any(), kani::any());
+                let ne: bool = kani::any();
+                let mut m = vars2(IrValue::$V(l), IrValue::$V(r));
+                let cmp = if ne { FloatCmp::Ne } else { FloatCmp::Eq };
+                arm_floatcmp(&mut m, &var(2), &cmp, &place(0), &place(1));
+                assert!(same(m.get(&var(2)).unwrap(), &IrValue::Bool((l == r) != ne)), "OBL:C20.eval.floatcmp.eq_ne_completes_only_with_the_machine_result");
+            }
+        };
+    }
+    floatcmp_eq!(agree_or_loud_c20_u1_floatcmp_eq_f32, F32, f32);
+    floatcmp_eq!(agree_or_loud_c20_u1_floatcmp_eq_f64, F64, f64);
+
     /// loud: operands of different variants never complete (Add shown; same dispatch shape in all arms).
     #[kani::proof]
     fn loud_c20_u1_mixed_variants() {
